@@ -344,7 +344,8 @@ type Exec struct {
 	// NoRebalance: name-index rebalancing is switched off in every session (creation option, toggle after a reopen)
 	NoRebalance bool
 	closed      bool
-	specs       map[string]*DSpec // dataset specs as passed to the library (for slice aliasing between datasets)
+	specs       map[string]*DSpec      // dataset specs as passed to the library (for slice aliasing between datasets)
+	specSnap    map[string][3][]uint64 // dims / chunk / max dims as they were when passed: the slices are the caller's
 }
 
 func NewExec(file string, sb int, opts ...interface{}) (*Exec, error) {
@@ -484,6 +485,10 @@ func (e *Exec) Apply(op Op) (st Step) {
 		dimsBefore := append([]uint64{}, spec.Dims...)
 		ds, err := spec.Create(e.FW, op.Path)
 		e.specs[op.Path] = spec
+		if e.specSnap == nil {
+			e.specSnap = map[string][3][]uint64{}
+		}
+		e.specSnap[op.Path] = [3][]uint64{append([]uint64(nil), spec.Dims...), append([]uint64(nil), spec.Chunk...), append([]uint64(nil), spec.MaxDims...)}
 		st.Err = errs(err)
 		if !eqU64(dimsBefore, spec.Dims) {
 			st.Broken = fmt.Sprintf("CreateDataset modified the caller's dims slice: %v -> %v", dimsBefore, spec.Dims)
@@ -771,6 +776,16 @@ func (e *Exec) Apply(op Op) (st Step) {
 		}
 	default:
 		st.Err = "skipped: unknown op"
+	}
+	// the shape slices handed to CreateDataset stay the caller's: no later call may write into them
+	if st.Broken == "" {
+		for p, snap := range e.specSnap {
+			if sp := e.specs[p]; sp != nil && (!eqU64(sp.Dims, snap[0]) || !eqU64(sp.Chunk, snap[1]) || !eqU64(sp.MaxDims, snap[2])) {
+				st.Broken = fmt.Sprintf("%s %s modified the shape slices the caller passed when it created %s: dims %v chunk %v max %v -> dims %v chunk %v max %v", op.K, op.Path, p, snap[0], snap[1], snap[2], sp.Dims, sp.Chunk, sp.MaxDims)
+				e.specSnap[p] = [3][]uint64{append([]uint64(nil), sp.Dims...), append([]uint64(nil), sp.Chunk...), append([]uint64(nil), sp.MaxDims...)}
+				break
+			}
+		}
 	}
 	switch {
 	case st.Must == "fail" && st.Err == "":
